@@ -12,7 +12,8 @@ RULE = ("a merchant with known discrete logs; channels established honestly and 
         "+-1 on either balance, balance out of range with hand-assembled digits, foreign channel id, close tag replaced, "
         "mismatched old / new revocation lock, token under another key, tampered token) x strategies (a) honest "
         "algorithm, (c) independent commitment scalars, (d) post-challenge choice of the revealed commitment scalars and "
-        "of the scalar commitments T (challenge read through the hook). Non-trivial = every case; distinct = distinct digest.")
+        "of the scalar commitments T (challenge read through the hook), (e) compensating errors in two sub-proofs over the same "
+        "generators (state / close state; two digit proofs) that cancel in the sum or difference of their relations. Non-trivial = every case; distinct = distinct digest.")
 TRUSTED = ["theorems C02_* over an arbitrary field / hash; correspondence ops: ready_start, m_allow, started_lock, u_complete, "
            "locked_unlock; verifier challenge read through the verif-hooks recorder"]
 ASSUMPTIONS = ["rewinding / random-oracle step from special soundness to 'no efficient prover' - not formalised",
@@ -185,6 +186,61 @@ def forger_family(run, h, pts, batch, rng, M, M2, tok, old, st, nonce, amt, ctx)
             if run.tier == "quick" and strat != "c_independent_scalars" and rng.random() < 0.6:
                 continue
             attempt(run, h, pts, batch, rng, M, M2, tok, old, true_new, nonce, amt, ctx, name, dev, strat)
+    compensating_family(run, h, pts, batch, rng, M, tok, old, true_new, nonce, amt, ctx)
+
+
+def compensating_family(run, h, pts, batch, rng, M, tok, old, true_new, nonce, amt, ctx):
+    """strategy (e): a proof whose responses are those of a TRUE statement, with errors in the (scalar) commitments of two
+    sub-proofs over the same generators that cancel in the sum or difference of their Schnorr relations - (new state,
+    new close state) under the merchant key in G1, and two digit proofs of a range constraint under the range key in G2.
+    Each relation alone fails; a verifier that checks them together (unweighted batching) accepts."""
+    pk = M.pk
+    new = list(true_new)
+    newc = [new[0], CLOSE, new[2], new[3], new[4]]
+    dig_c = (digits(new[3] % 2 ** 63),) * 2
+    dig_m = (digits(new[4] % 2 ** 63),) * 2
+    plans = [("state_close", f, sgn, 3) for f in ("C", "T") for sgn in (-1, 1)]
+    i, j = sorted(rng.sample(range(9), 2))
+    plans += [("digits_c", "T", -1, (i, j)), ("digits_m", "T", 1, (j % 8, 8))]
+    if run.tier == "quick":
+        plans = [plans[0], plans[2], rng.choice(plans[1:2] + plans[3:4]), plans[4], plans[5]]
+    for where, f, sgn, arg in plans:
+        d = rand_pay_draws(rng)
+        delta = rng.choice([1, 990, rand_nz(rng)])
+
+        def shifted(c):
+            p = build_pay(M, tok, old, new, newc, old[2], dig_c, dig_m, d, c)
+            if where == "state_close":
+                E = pk["y1s"][arg] * delta % Q
+                p["sp"][f] = (p["sp"][f] + sgn * E) % Q
+                p["csp"][f] = (p["csp"][f] + E) % Q
+            else:
+                key = "cr" if where == "digits_c" else "mr"
+                E = M.rp["pk"]["g2"] * delta % Q
+                a, b = arg
+                p[key][a][f] = (p[key][a][f] + sgn * E) % Q
+                p[key][b][f] = (p[key][b][f] + E) % Q
+            return p
+        h.begin()
+        r0 = merchant_allow(h, M, amt, nonce, pay_wire(pts, shifted(1)), ctx, u=rand_nz(rng))
+        if r0["chal"] is None:
+            h.end()
+            continue
+        final = shifted(r0["chal"]["c"])
+        r1 = merchant_allow(h, M, amt, nonce, pay_wire(pts, final), ctx, u=rand_nz(rng))
+        case = {"op": "forgery", "variant": where, "strategy": "e_compensating_%s_%s" % (f, "same" if sgn == 1 else "opposite"),
+                "nonce_given": nonce, "amount_given": amt, "old": old, "new": new, "close": newc, "delta": delta, "at": arg,
+                "accepted": r1["ok"], "script": h.end()}
+        run.case(case)
+        run.count("forger e_compensating_errors")
+        run.check_monitor("false_statement_rejected", not r1["ok"], case)
+        if r1["chal"] is None:
+            continue
+
+        def cmp(r, case=case, ok=r1["ok"]):
+            run.check_corr("corr.C02.pay_verify", bool(r[0]) == ok, dict(case, model=r[0]))
+        batch.add("r_pay_verify pk0 rp0 %s %s %s %s %s %s" % (zlit(M.hr), zlit(M.gr), zlit(nonce), zlit(amt), coq_pproof(final),
+                                                              zlit(r1["chal"]["c"])), cmp)
 
 
 def attempt(run, h, pts, batch, rng, M, M2, tok, old, true_new, nonce, amt, ctx, name, dev, strat):
